@@ -65,6 +65,16 @@ def op_sequences(h):
         h.check(pm == sum(c[1] for c in ref), "egress.pending-messages", f"pending_messages={pm} expected {sum(c[1] for c in ref)}")
         h.check(tb == sum(len(c[0]) - c[2] for c in ref), "egress.total-pending-bytes")
         h.check(h.method(EB, "is_empty", eb) == (not ref), "egress.is-empty")
+    # whatever the history was, the next bytes offered to the writer are the unwritten rest of the oldest chunk
+    sl = h.method(EB, "current_slice", eb)
+    if ref:
+        shown = list(sl.f[0].items()) if sl.idx == 1 else None
+        want = ref[0][0][ref[0][2]:]
+        h.check(shown is not None and len(shown) == len(want) and conj([bv(a, 8) == bv(b, 8) for a, b in zip(shown, want)]),
+                "egress.final-slice-differs-from-unwritten-head",
+                "after the history the bytes offered next are not the unwritten remainder of the oldest chunk")
+    else:
+        h.check(sl.idx == 0, "egress.slice-on-empty")
 
 
 def replay_op_sequences(model, params, role):
@@ -105,7 +115,10 @@ def replay_op_sequences(model, params, role):
                     ref[0][2] += left
                     left = 0
             want.append(f"advanced popped={popped} pending={sum(c[1] for c in ref)} bytes={sum(len(c[0]) - c[2] for c in ref)}")
+    lines.append("eb_write 0")
+    want.append("slice " + (ref[0][0][ref[0][2]:].hex() if ref else "none"))
     def pred(out):
         got = [l.strip() for l in out.splitlines() if l.startswith(("slice ", "advanced "))]
-        return got != want
+        got = [g for g in got if not (g.startswith("advanced") and got.index(g) == len(got) - 1)]
+        return got[:len(want)] != want
     return "\n".join(lines) + "\n", pred, "operation sequence replayed natively against the reference byte stream"
